@@ -65,10 +65,16 @@ type Sched struct {
 	// change points (step numbers drawn before the run) the running task drops below all others. A
 	// task can so be held back across an arbitrarily long stretch of another task's work - the shape
 	// "reader pauses, installer completes, reader resumes" that a per-point coin rarely produces.
+	ticks    int
 	pct      bool
 	prio     [maxTasks]int
-	change   []int
-	lowPrio  int
+	change   []int // global step numbers
+	// task-relative change points: task changeTask[i] is demoted when it passes its changeAt[i]-th own
+	// scheduling point (a short task's few points are hit far more often than through global step numbers)
+	changeTask []int
+	changeAt   []int
+	tcount     [maxTasks]int
+	lowPrio    int
 }
 
 var active *Sched
@@ -103,7 +109,13 @@ func (s *Sched) SetPCT(d, horizon int) {
 		s.prio[id] = n - rank + d // all initial priorities are above the d-1 low ones
 	}
 	for i := 0; i < d-1; i++ {
-		s.change = append(s.change, int(s.Decisions[maxTasks+i]%uint32(horizon)))
+		x := s.Decisions[maxTasks+i]
+		if x&1 == 0 {
+			s.change = append(s.change, int((x>>1)%uint32(horizon)))
+		} else {
+			s.changeTask = append(s.changeTask, int((x>>1)%uint32(n)))
+			s.changeAt = append(s.changeAt, 1+int((x>>9)%uint32(min(horizon, 256))))
+		}
 	}
 	s.lowPrio = d - 1
 }
@@ -114,8 +126,15 @@ func (s *Sched) SetPCT(d, horizon int) {
 func (s *Sched) choose(step, cur int, cand []int) int {
 	if s.pct {
 		if cur >= 0 {
+			s.tcount[cur]++
 			for _, c := range s.change {
 				if c == step {
+					s.prio[cur] = s.lowPrio
+					s.lowPrio--
+				}
+			}
+			for i, t := range s.changeTask {
+				if t == cur && s.changeAt[i] == s.tcount[cur] {
 					s.prio[cur] = s.lowPrio
 					s.lowPrio--
 				}
@@ -296,6 +315,20 @@ func Yield(op string) {
 	if s := active; s != nil && s.isTask(runtime.VerifGoid()) {
 		s.point(op, nil, nil)
 	}
+}
+
+// Tick returns a strictly increasing event sequence number. Exactly one task runs at any time, so
+// the order of ticks is the order in which things really happened; history events are stamped with
+// it (scheduling-step numbers tie for consecutive operations of one task, and operations that tie
+// would count as concurrent).
+//
+//go:norace
+func Tick() int {
+	if s := active; s != nil {
+		s.ticks++
+		return s.ticks
+	}
+	return 0
 }
 
 // Now returns the current scheduling step (0 outside a simulation).
